@@ -39,7 +39,16 @@ func makeExecInvocation(inv bigslice.Invocation) execInvocation {
 // encoding of the arbitrary interface{} argument types without registration of
 // those types using gob.Register, as we record the argument types in the call
 // to bigslice.Func.
-func (inv execInvocation) GobEncode() ([]byte, error) {
+func (inv execInvocation) GobEncode() (p []byte, err error) {
+	// gob panics, rather than returning an error, for some values that it
+	// cannot encode (e.g. a nil pointer argument). Report these as errors,
+	// like every other unencodable argument, instead of taking down the
+	// process from whichever goroutine happens to encode the invocation.
+	defer func() {
+		if e := recover(); e != nil {
+			p, err = nil, fmt.Errorf("encoding invocation: %v", e)
+		}
+	}()
 	var (
 		b   bytes.Buffer
 		enc = gob.NewEncoder(&b)
